@@ -17,7 +17,7 @@ fn digest(r: &ExecResult) -> u64 {
         r.outcome.switches,
         r.outcome.arrival_hash,
         hash_bytes(&r.stdout_normalised()),
-        hash_bytes(&r.stderr),
+        hash_bytes(scrub_workdir(&r.stderr).as_bytes()),
         hash_bytes(r.stats_file.as_deref().unwrap_or(b"-")),
         hash_bytes(r.out_file.as_deref().unwrap_or(b"-")),
     ]);
@@ -143,7 +143,9 @@ pub fn run_fidelity(ex: &mut Executor, spec: &ExecSpec, label: &str) -> TrialOut
     };
     let cmp: [(&str, String, String); 3] = [
         ("stdout", oracle::normalise_stdout(&o.stdout), oracle::normalise_stdout(&r.stdout)),
-        ("stderr", subst(&o.stderr).replace("<dir>/real", "<dir>"), subst(&r.stderr)),
+        // (INFO / DEBUG / TRACE lines of different threads interleave as the OS schedules them: only what
+        // ERROR and WARN say is compared)
+        ("stderr", loud_lines(&subst(&o.stderr).replace("<dir>/real", "<dir>")), loud_lines(&subst(&r.stderr))),
         (
             "statistics file",
             subst(real_stats.as_deref().unwrap_or(b"<none>")),
@@ -286,4 +288,46 @@ pub fn run(tier: Tier) -> i32 {
         println!("selftest: FPSIM_REAL_BIN not set, fidelity against the real binary skipped");
     }
     rc
+}
+
+/// stderr without the log lines (and their continuation lines) below WARN.
+fn loud_lines(s: &str) -> String {
+    let plain = oracle::strip_ansi(s);
+    let mut keep = true;
+    let mut out = String::new();
+    for l in plain.lines() {
+        if ["INFO ", "DEBUG ", "TRACE "].iter().any(|p| l.starts_with(p)) {
+            keep = false;
+        } else if ["ERROR ", "WARN "].iter().any(|p| l.starts_with(p)) {
+            keep = true;
+        }
+        if keep {
+            out.push_str(l);
+            out.push('\n');
+        }
+    }
+    out
+}
+
+/// stderr with the per-process scratch directory name (`.../fpsim-<pid>-<name>`, shown by -v 4 when the
+/// configuration is logged) replaced by a fixed token.
+fn scrub_workdir(stderr: &[u8]) -> String {
+    let s = String::from_utf8_lossy(stderr);
+    let mut out = String::with_capacity(s.len());
+    let mut rest: &str = &s;
+    while let Some(i) = rest.find("fpsim-") {
+        out.push_str(&rest[..i]);
+        let tail = &rest[i + 6..];
+        let digits = tail.chars().take_while(|c| c.is_ascii_digit()).count();
+        if digits > 0 && tail[digits..].starts_with('-') {
+            let name = tail[digits + 1..].chars().take_while(|c| c.is_ascii_alphanumeric() || *c == '-' || *c == '_').count();
+            out.push_str("fpsim-<wd>");
+            rest = &tail[digits + 1 + name..];
+        } else {
+            out.push_str("fpsim-");
+            rest = tail;
+        }
+    }
+    out.push_str(rest);
+    out
 }
